@@ -247,3 +247,69 @@ func TestC19(t *testing.T) {
 	}
 	p.run(t)
 }
+
+// TestC19S: the shipped recovering parsers (tm, js) on mutated corpus inputs.
+func c19sCheck(c spCase, r *ev.Recorder) *Failure {
+	sp := shippedByName(c.Parser)
+	if sp == nil || !sp.recovering || c.Entry >= len(sp.entries) {
+		return nil
+	}
+	src := string(c.Src)
+	o, hung := spRun(sp, c)
+	r.Eval(1)
+	where := fmt.Sprintf("%s parser, entry %s, input %q", sp.name, sp.entries[c.Entry], src)
+	if hung {
+		return failf("hang:"+sp.name, "the parse did not return within 20 s: %s", where)
+	}
+	prev := -1
+	for i, e := range o.Errors {
+		if e.Off < 0 || e.Off > e.End || e.End > len(src) {
+			return failf("error-range-outside-input:"+sp.name, "handler call #%d received [%d,%d) for an input of %d bytes; %s", i, e.Off, e.End, len(src), where)
+		}
+		if e.Off < prev {
+			return failf("error-offsets-decrease:"+sp.name, "handler call #%d received offset %d after offset %d; %s", i, e.Off, prev, where)
+		}
+		prev = e.Off
+	}
+	if o.Err == nil && len(o.Errors) == 0 {
+		r.Class(sp.name + ":sentence")
+		return nil
+	}
+	if o.Err != nil && len(o.Errors) == 0 {
+		return failf("error-not-reported:"+sp.name, "Parse returned %v without calling the error handler; %s", o.Err, where)
+	}
+	if c.Stop > 0 && len(o.Errors) >= c.Stop {
+		if o.Err == nil {
+			return failf("handler-stop-ignored:"+sp.name, "the handler returned false at call %d but Parse returned nil; %s", c.Stop, where)
+		}
+		if len(o.Errors) > c.Stop {
+			return failf("handler-stop-ignored:"+sp.name, "the handler returned false at call %d but was called %d times; %s", c.Stop, len(o.Errors), where)
+		}
+		r.Class(sp.name + ":stopped-by-handler")
+		return nil
+	}
+	if o.Err == nil {
+		r.Class(sp.name + ":recovered")
+		if len(o.Errors) >= 2 {
+			r.Nontrivial(sp.name + "\x00" + src)
+		}
+		if r.WantSample() && len(src) < 80 {
+			r.Sample(map[string]any{"parser": sp.name, "input": src, "handler_calls": len(o.Errors)})
+		}
+	} else {
+		r.Class(sp.name + ":gave-up")
+		r.Nontrivial(sp.name + "\x00" + src)
+	}
+	return nil
+}
+
+func TestC19S(t *testing.T) {
+	p := &prop[spCase]{
+		ID:   "C19",
+		Rule: "shipped recovering parsers (tm, js) on the C20 corpus with 0..4 mutations or dictionary soup, any entry point, handler continuing or returning false at call 1..3. Invariants: the parse returns (20 s watchdog) without panic, handler ranges lie inside the input with non-decreasing offsets, an error result implies at least one handler call, a false result from the handler ends the parse with an error and no further calls. Non-trivial: input with at least two handler calls or on which recovery gave up; distinct by (parser, input).",
+		Quick: 20000, Thorough: 1500000,
+		Gen:   spGen(func(sp *shippedParser) bool { return sp.recovering }),
+		Check: c19sCheck,
+	}
+	p.run(t)
+}
